@@ -29,11 +29,7 @@ Definition kind_of_node (n : node) : W.kind :=
   match n with NFile _ _ => W.KFile | NFolder => W.KDir | NLink _ _ => W.KLink end.
 
 Section Bridge.
-Variable now_z : N -> Z.
 Variable incl : path -> bool.
-Variable normalize : str -> target.
-Notation entry_of := (entry_of now_z normalize).
-Notation valid_listing := (valid_listing now_z incl normalize).
 
 Fixpoint tree_of (fuel : nat) (f : fs) (p : path) : W.tree :=
   match fget f p with
@@ -48,10 +44,6 @@ Fixpoint tree_of (fuel : nat) (f : fs) (p : path) : W.tree :=
   end.
 
 Definition tree_of_fs (f : fs) : W.tree := tree_of (max_depth f) f [].
-
-(* the entry details the doer adds to what the walk found (doer.rs handle_get_entries) *)
-Definition with_details (f : fs) (l : list W.entry) : listing :=
-  flat_map (fun e : W.entry => match fget f (fst e) with Some n => [(fst e, entry_of n)] | None => [] end) l.
 
 (* ---- small facts ------------------------------------------------------------------------------ *)
 Lemma strip_some p : forall q r, strip p q = Some r <-> q = p ++ r.
@@ -303,6 +295,15 @@ Theorem tree_of_fs_readable f : fget f [] = Some NFolder -> W.has_error (tree_of
 Proof. intros H. unfold W.has_error, tree_of_fs. apply walk_all_no_error; [exact H|auto]. Qed.
 
 (* ---- any parents-first permutation of the reference walk, with details, is a valid listing ---- *)
+Variable now_z : N -> Z.
+Variable normalize : str -> target.
+Notation entry_of := (entry_of now_z normalize).
+Notation valid_listing := (valid_listing now_z incl normalize).
+
+(* the entry details the doer adds to what the walk found (doer.rs handle_get_entries) *)
+Definition with_details (f : fs) (l : list W.entry) : listing :=
+  flat_map (fun e : W.entry => match fget f (fst e) with Some n => [(fst e, entry_of n)] | None => [] end) l.
+
 Lemma with_details_in f l p e :
   In (p, e) (with_details f l) <-> exists k n, In (p, k) l /\ fget f p = Some n /\ e = entry_of n.
 Proof.
